@@ -3,9 +3,11 @@
      compiler/kernel/bufferfilter.go   CompileBufferFilter, isFieldEqualOrIn,
                                        newBufferFilterForLiteral
      runtime/sam/expr/bufferfilter.go  BufferFilter.Eval, NewBufferFilterFor*
-     runtime/sam/expr/fieldnamefinder.go FieldNameFinder.Find, FieldNameIter
+     runtime/sam/expr/fieldnamefinder.go FieldNameFinder.Find, findNames, findHidden,
+                                       findBelow, FieldNameIter
      runtime/sam/expr/filter.go        searchString.Eval, search.Eval, stringSearch
-     runtime/sam/expr/eval.go          In.Eval, And/Or/Not; boolean.go Comparison
+     runtime/sam/expr/eval.go          In.Eval, And/Or/Not; boolean.go Comparison, Contains
+     compiler/kernel/expr.go           compileConstCompare, compileConstIn, compileSearch
      walk.go                           zed.Walk
      zio/zngio/scanner.go              worker.scanBatch (per-frame gate, per-value filter)
      zcode                             Append (tag = uvarint(len+1), 0 = null)
@@ -171,8 +173,12 @@ Definition search_type (term : bytes) (t : ty) : bool :=
 Record lit := { lid : N; lbody : option bytes }.
 
 Inductive expr :=
-| ESearchStr (term : bytes)              (* dag.Search, string literal (NFC already) *)
-| ESearchLit (text : bytes) (l : lit)    (* dag.Search, non-string literal *)
+| ESearchStr (path : list bytes) (term : bytes)
+                                         (* dag.Search over this.path, string literal (NFC
+                                            already): `search "x"`, grep("x"), grep("x", a.b).
+                                            A search over a COMPUTED expression is EOther:
+                                            it gets no buffer filter. *)
+| ESearchLit (text : bytes) (l : lit)    (* dag.Search over this, non-string literal *)
 | EEq (path : list bytes) (l : lit)      (* this.path == literal *)
 | EIn (l : lit) (path : list bytes)      (* literal in this.path *)
 | EAnd (a b : expr)
@@ -221,7 +227,7 @@ Fixpoint compile_bf (e : expr) : option bf :=
     | Some l, Some r => Some (BOr l r)
     | _, _ => None
     end
-  | ESearchStr term =>
+  | ESearchStr _ term =>
     match bf_string_case term with
     | None => None
     | Some l => Some (BOr l (BFieldName term))
@@ -244,13 +250,31 @@ Definition frame := list (N * ty * val).
 Definition frame_bytes (fr : frame) : bytes :=
   flat_map (fun '(id, _, v) => uvarint id ++ enc_val v) fr.
 
-(* FieldNameFinder.Find: true as soon as a value's type is not a record, or one
-   of its dotted leaf names contains the pattern.  (The checkedIDs bitmap only
-   avoids repeating the same work.) *)
+(* FieldNameFinder.findHidden / findBelow: does a record type nested inside t
+   below an array have a matching field name?  (findBelow t = findNames on t
+   when t is a record, or findHidden t.)  FieldNameIter does not see those
+   record types but the evaluator's walk reaches their values. *)
+Fixpoint find_hidden (p : bytes) (t : ty) : bool :=
+  match t with
+  | TPrim _ => false
+  | TRec fs =>
+    (fix go (fs : list (bytes * ty)) : bool :=
+       match fs with
+       | [] => false
+       | (_, ft) :: fs' => find_hidden p ft || go fs'
+       end) fs
+  | TArr e =>
+    (match e with TRec _ => search_type p e | _ => false end) || find_hidden p e
+  end.
+
+(* FieldNameFinder.Find: true as soon as a value's type is not a record, or a
+   dotted leaf name of the record type (findNames), or a field name of a record
+   type hidden below an array (findHidden), contains the pattern.  (The
+   checkedIDs bitmap only avoids repeating the same work.) *)
 Definition fnf_find (p : bytes) (fr : frame) : bool :=
   existsb (fun '(_, t, _) =>
              match t with
-             | TRec _ => search_type p t
+             | TRec _ => search_type p t || find_hidden p t
              | _ => true
              end) fr.
 
@@ -292,6 +316,12 @@ Definition coerce_eq (l : lit) (t : ty) (v : val) : bool :=
   | _ => false
   end.
 
+(* `literal in expr`: kernel.compileConstIn uses Contains(Comparison("==", literal))
+   when Comparison supports the literal's type, else In.Eval with coerce.Equal
+   (of the interpreted literals only net is unsupported by Comparison). *)
+Definition in_eq (l : lit) (t : ty) (v : val) : bool :=
+  if N.eqb (lid l) ID_NET then coerce_eq l t v else const_eq l t v.
+
 (* literals whose comparison the model does not interpret: numbers (numeric
    coercion), null, typed nulls *)
 Definition opaque_lit (l : lit) : bool :=
@@ -328,10 +358,15 @@ Section Eval.
 
   Fixpoint eval3 (e : expr) (t : ty) (v : val) : tv3 :=
     match e with
-    | ESearchStr term =>
-      (* searchString.Eval: never an error *)
-      b3 (search_type term t ||
-          existsb (fun tv => search_type term (fst tv) || is_string_leaf term tv) (walk t v))
+    | ESearchStr path term =>
+      (* searchString.Eval: the searched value is this.path; an error
+         (missing) there is False; otherwise never an error *)
+      match deref path t v with
+      | Some (t', v') =>
+        b3 (search_type term t' ||
+            existsb (fun tv => search_type term (fst tv) || is_string_leaf term tv) (walk t' v'))
+      | None => F3
+      end
     | ESearchLit text l =>
       (* search.Eval; a net literal is searchCIDR *)
       if opaque_lit l || N.eqb (lid l) ID_NET then lit_oth e t v
@@ -344,10 +379,10 @@ Section Eval.
            | None => M3
            end
     | EIn l path =>
-      (* In.Eval *)
+      (* compileConstIn: NewFilter(path, Contains(==literal)); In.Eval for a net *)
       if opaque_lit l then lit_oth e t v
       else match deref path t v with
-           | Some (t', v') => b3 (existsb (fun tv => coerce_eq l (fst tv) (snd tv)) (walk t' v'))
+           | Some (t', v') => b3 (existsb (fun tv => in_eq l (fst tv) (snd tv)) (walk t' v'))
            | None => M3
            end
     | EAnd a b =>
@@ -393,30 +428,3 @@ Section Eval.
 End Eval.
 
 Definition tv3_code (x : tv3) : N := match x with T3 => 1 | F3 => 0 | M3 => 2 end%N.
-
-(* ---------------------------------------------------------------- visibility *)
-
-(* Record types that FieldNameIter can see from the top-level type: records
-   nested directly in records.  [visible t] says no record type hides below an
-   array inside t. *)
-Fixpoint has_rec (t : ty) : bool :=
-  match t with
-  | TPrim _ => false
-  | TRec _ => true
-  | TArr e => has_rec e
-  end.
-
-Fixpoint visible (t : ty) : bool :=
-  match t with
-  | TPrim _ => true
-  | TRec fs =>
-    (fix go (fs : list (bytes * ty)) : bool :=
-       match fs with
-       | [] => true
-       | (_, ft) :: fs' => visible ft && go fs'
-       end) fs
-  | TArr e => negb (has_rec e)
-  end.
-
-Definition frame_visible (fr : frame) : Prop :=
-  Forall (fun '(_, t, _) => visible t = true) fr.
